@@ -13,7 +13,7 @@ ASSUME = ["tolerance model of spec/ManifTrace.tla (working precision 2^10 u scal
           "uniformity is claimed over the enumerated strata cells and the drawn points, not proved between them",
           "bundles are covered by C11 (bundle = element-wise) composed with this property on the element groups"]
 
-ALGO_OPS = {"interp", "phi", "avg", "tisapprox"}
+ALGO_OPS = {"interp", "phi", "avg", "tisapprox", "tarith", "misc"}
 def run(prop, tier, seed, judged, rule, module="ManifTrace", subsample=None, extra_results=None):
     rep = vlib.Report(prop, tier, seed)
     rep.assumptions = list(ASSUME)
